@@ -4,3 +4,19 @@ open Gossamer.C29
 #print axioms C29_twox256
 #print axioms C29_twox_lengths
 #print axioms C29_u64le_value
+#print axioms C29_merlin_append
+#print axioms C29_merlin_challenge
+#print axioms C29_absorb_append
+#print axioms C29_merlin_len_frame
+#print axioms C29_squeeze_length
+#print axioms C29_signing_context
+#print axioms C29_challenge_reduced
+#print axioms C29_sr_marker
+#print axioms C29_sr_lengths
+#print axioms C29_sr_accept_wellformed
+#print axioms C29_ristretto_canonical
+#print axioms C29_sr_deprecated_ref_marked
+#print axioms C29_sr_deprecated_go_marker_blind
+#print axioms C29_host_sr1_ignores_signature
+#print axioms C29_host_sr2_nonzero
+#print axioms C29_host_recover_shape
